@@ -131,6 +131,19 @@ def _file_sig(path: str) -> str:
         return ""
 
 
+def tables_current() -> bool:
+    """whether coq/Gen/Tables.v is what the translator produces for THIS tree now (dry run into a
+    private file; nothing shared is written)"""
+    tmpd = os.path.join(COQ, ".tmp", f"t{os.getpid()}")
+    os.makedirs(tmpd, exist_ok=True)
+    out = os.path.join(tmpd, "Tables.v")
+    try:
+        rc, _ = _run(["python3", os.path.join(VERIF, "tools/translate.py"), REPO, out], VERIF, 120)
+        return rc == 0 and _file_sig(out) == _file_sig(os.path.join(COQ, "Gen/Tables.v")) != ""
+    finally:
+        shutil.rmtree(tmpd, ignore_errors=True)
+
+
 def _deps_fresh(deps: list[str]) -> bool:
     """make's own verdict (question mode: nothing is written): every compiled dependency is up to
     date with respect to its sources AND to everything it was compiled against"""
@@ -211,6 +224,23 @@ def build_driver(name: str = "core") -> str:
     return drv
 
 
+def _driver_if_current(name: str) -> str | None:
+    """the compiled driver, if nothing it is built from has changed (read-only test)"""
+    cap = name[0].upper() + name[1:]
+    drv = os.path.join(OCAML, f"driver_{name}")
+    ml = os.path.join(OCAML, f"model_{name}.ml")
+    tmpl = os.path.join(OCAML, "driver_template.ml")
+    try:
+        if not (os.path.getmtime(drv) >= os.path.getmtime(ml) and os.path.getmtime(drv) >= os.path.getmtime(tmpl)):
+            return None
+    except OSError:
+        return None
+    if not tables_current():
+        return None
+    rc, _ = _run(["make", "-q", f"Extract/Extract{cap}.vo"], COQ, 300)
+    return drv if rc == 0 else None
+
+
 _ASSUME_RE = re.compile(r"^(Closed under the global context|Axioms:)", re.M)
 
 
@@ -225,17 +255,24 @@ def prove(prop: str, coqchk: bool = False) -> dict:
     with open(vfile, encoding="utf-8") as f:
         src = f.read()
     res["theorems"] = re.findall(r"^Theorem\s+(\w+)", src, re.M)
-    with Lock():
-        res["translate"] = translate()
-        # dependencies of the property file (not the file itself)
-        rc, out = _run(["coqdep", "-Q", ".", "HT", f"Properties/{prop}.v"], COQ, 120)
-        deps = []
-        m = re.search(r":\s*(.*)$", out.replace("\\\n", " "), re.M)
-        if m:
-            deps = [d for d in m.group(1).split()
-                    if d.endswith(".vo") and not d.endswith(f"Properties/{prop}.vo")
-                    and not d.startswith("/")]
-        rc, out = make(deps) if deps else (0, "")
+    # dependencies of the property file (not the file itself): read-only
+    rc, out = _run(["coqdep", "-Q", ".", "HT", f"Properties/{prop}.v"], COQ, 120)
+    deps = []
+    m = re.search(r":\s*(.*)$", out.replace("\\\n", " "), re.M)
+    if m:
+        deps = [d for d in m.group(1).split()
+                if d.endswith(".vo") and not d.endswith(f"Properties/{prop}.vo")
+                and not d.startswith("/")]
+    fast = False
+    if not coqchk and os.path.exists(os.path.join(COQ, "Makefile")):
+        with Lock(shared=True):
+            # nothing to rebuild for this tree?  then no exclusive lock is needed at all
+            fast = tables_current() and _deps_fresh(deps)
+            res["translate"] = "tables and dependencies up to date"
+    with (Lock(shared=True) if fast else Lock()):
+        if not fast:
+            res["translate"] = translate()
+        rc, out = (make(deps) if deps else (0, "")) if not fast else (0, "")
         res["log"] = out[-6000:]
         if rc != 0:
             m2 = re.search(r'File "\./([^"]+)", line (\d+)', out)
@@ -335,8 +372,13 @@ def run_model(cases: list[Any], nproc: int = 8, driver: str = "core") -> list[An
     """cases: list of sx values (nested int lists).  Returns the list of results."""
     if not cases:
         return []
-    with Lock():
-        DRIVER = build_driver(driver)
+    DRIVER = None
+    if os.path.exists(os.path.join(COQ, "Makefile")):
+        with Lock(shared=True):
+            DRIVER = _driver_if_current(driver)
+    if DRIVER is None:
+        with Lock():
+            DRIVER = build_driver(driver)
     n = len(cases)
     nproc = max(1, min(nproc, (n + 199) // 200))
     chunks = [list(range(i, n, nproc)) for i in range(nproc)]
